@@ -38,6 +38,7 @@ def core_constants(cfg, special=(), raisers=(), versioned=(), quiet=()):
         'QuietCids = %s' % tla_set(sorted(quiet)),
         'Journal = %s' % tla_bool(cfg.get('journal', False)),
         'DumpFile = %s' % tla_bool(cfg.get('dump', False)),
+        'Fork = %s' % tla_bool(cfg.get('fork', False)),
         'InitConnected = %s' % tla_bool(cfg.get('init_connected', False)),
         'Conform = %s' % tla_bool(not cfg.get('versions', False)),
         'Isolated0 = %s' % tla_set(cfg.get('isolated0', [])),
